@@ -742,11 +742,11 @@ class Spec(object):
             symbolic = True
         if symbolic:
             # None-ness of a symbolic value
-            if t in (ast.Is, ast.IsNot) and rv is None and isinstance(left, (Sym, Op, Lin)):
+            if t in (ast.Is, ast.IsNot) and rv is None and isinstance(left, (Sym, Op, Lin, Guard)):
                 known = self.nonnull(left)
                 if known is not None:
                     return (not known) if t is ast.Is else known
-            if t in (ast.Is, ast.IsNot) and left is None and isinstance(rv, (Sym, Op, Lin)):
+            if t in (ast.Is, ast.IsNot) and left is None and isinstance(rv, (Sym, Op, Lin, Guard)):
                 known = self.nonnull(rv)
                 if known is not None:
                     return (not known) if t is ast.Is else known
@@ -768,6 +768,16 @@ class Spec(object):
         """True if the symbolic value is known not to be None (numbers, reads, arithmetic)."""
         if isinstance(v, Lin):
             return True
+        if isinstance(v, Guard):
+            # a guarded value is non-None when both arms are (an arm that is a concrete non-None constant counts)
+            arms = []
+            for x in (v.a, v.b):
+                arms.append(True if (not is_sym(x) and x is not None) else (False if x is None else self.nonnull(x)))
+            if all(a is True for a in arms):
+                return True
+            if all(a is False for a in arms):
+                return False
+            return None
         if isinstance(v, Sym) and v.kind in ("int", "byte", "bytes", "str", "stream", "tuple", "float", "list", "dict", "obj!", "bool"):
             return True
         if isinstance(v, Op) and v.op in ("bits", "byte", "or", "and", "shr", "mul", "add", "sub", "mod", "floordiv", "ord", "len", "concat", "new"):
